@@ -85,7 +85,7 @@ def analyze(c, twin=False, extra_pre=(), seed=0):
     def mk_pre(p, src):
         import inspect
 
-        names = list(inspect.signature(p).parameters)
+        names = [n for n, prm in inspect.signature(p).parameters.items() if prm.default is inspect.Parameter.empty]
 
         def ev(bindings):
             return p(**{k: bindings[k] for k in names})
